@@ -1,3 +1,69 @@
-From BiomV Require Import Model.Hdf5.
-Theorem placeholder : True. Proof. exact I. Qed.
-Print Assumptions placeholder.
+(* C01  HDF5 (BIOM 2.x) write / read round trip is lossless.
+   Model: Model/Hdf5.v (to_hdf5, from_hdf5, UTF-8 coder), Model/Sparse.v (the held matrix in any
+   layout); proofs in Proofs/Hdf5Proofs.v, Proofs/Utf8Proofs.v, Proofs/SparseProofs.v. *)
+From Coq Require Import List ZArith Bool.
+From BiomV Require Import Base.ListUtil Base.Matrix Model.Table Model.Sparse Model.Hdf5
+                          Proofs.SparseProofs Proofs.Utf8Proofs Proofs.Hdf5Proofs.
+Import ListNotations.
+
+(* [core] Every table state (ids, matrix held as CSR or CSC in ANY well-formed layout: unsorted
+   indices, explicitly stored zeros; homogeneous metadata; type; id; group metadata) is written
+   without error, and reading the file back, from the sample copy or from the observation copy,
+   succeeds and yields the same ids in order, the same matrix, the same metadata per id and
+   category, type, table id (absent -> the placeholder), generated-by, creation date and
+   group-metadata payloads. *)
+Theorem hdf5_roundtrip : forall st genby date ax,
+  wf_state st -> meta_ok st -> text genby -> text date ->
+  exists f ld,
+    to_hdf5 st genby date = ROk f /\ from_hdf5 f ax = ROk ld
+    /\ l_oids ld = st_oids st /\ l_sids ld = st_sids st
+    /\ l_mat ld = st_mat st
+    /\ md_agree (l_omd ld) (md_norm (st_omd st)) /\ md_agree (l_smd ld) (md_norm (st_smd st))
+    /\ l_type ld = st_type st
+    /\ l_id ld = match st_id st with Some s => s | None => s_no_table_id end
+    /\ l_genby ld = genby /\ l_date ld = date
+    /\ l_ogmd ld = map (fun e => (fst e, snd (snd e))) (st_ogmd st)
+    /\ l_sgmd ld = map (fun e => (fst e, snd (snd e))) (st_sgmd st).
+Proof. exact Hdf5Proofs.hdf5_roundtrip. Qed.
+Print Assumptions hdf5_roundtrip.
+
+(* the hypotheses are satisfiable by the standard witness: 3 x 4, an all-zero row, unsorted
+   indices, one stored zero, a non-ASCII id, an id and a category name with a slash, taxonomy
+   lists of unequal length, group metadata *)
+Example hdf5_roundtrip_nonvacuous :
+  wf_state demo_st /\ meta_ok demo_st
+  /\ sorted_csb demo_cs = false /\ no_stored_zerob demo_cs = false
+  /\ nth 1 (st_mat demo_st) [] = [0; 0; 0; 0]%Z.
+Proof. exact (conj demo_wf (conj (proj1 demo_meta) demo_layout)). Qed.
+Print Assumptions hdf5_roundtrip_nonvacuous.
+
+(* [core] ids, metadata strings, attributes: the UTF-8 coder pair round-trips on every text
+   (Unicode scalar values; NUL excluded because h5py refuses it) *)
+Theorem utf8_roundtrip : forall s, text s -> utf8_decode (utf8_encode s) = Some s.
+Proof. exact Utf8Proofs.utf8_roundtrip. Qed.
+Print Assumptions utf8_roundtrip.
+
+(* [core] category names: the slash escape reads back for every name without an at-sign
+   (this discharges the hypothesis cat_ok of hdf5_roundtrip for such names) ... *)
+Theorem escape_roundtrip : forall k, ~ In 64%Z k -> unsanitize (sanitize k) = k.
+Proof. exact Utf8Proofs.escape_roundtrip. Qed.
+Print Assumptions escape_roundtrip.
+
+(* ... and does NOT read back for some names with at-signs: the witness is the name @@SLASH@/
+   which is written as a dataset name without a slash and read back as /@SLASH@@ .
+   This is the one place where the code leaves the property's literal domain
+   ("category names including '/'"); replayed on the implementation by corpus/C01. *)
+Theorem slash_escape_refuted :
+  exists k, text k /\ ~ In 47%Z (sanitize k) /\ unsanitize (sanitize k) <> k.
+Proof. exact Utf8Proofs.slash_escape_refuted. Qed.
+Print Assumptions slash_escape_refuted.
+
+(* [more] what the reader returns is determined: it is exactly `reloaded st genby date`,
+   whichever matrix copy is read *)
+Theorem from_hdf5_written : forall st genby date ax,
+  wf_state st -> meta_ok st -> text genby -> text date ->
+  from_hdf5 (assemble st genby date (md_written (st_omd st)) (gmd_written (st_ogmd st))
+                      (md_written (st_smd st)) (gmd_written (st_sgmd st))) ax
+  = ROk (reloaded st genby date).
+Proof. exact Hdf5Proofs.from_hdf5_written. Qed.
+Print Assumptions from_hdf5_written.
